@@ -16,7 +16,9 @@ Null == [ev |-> "none"]
 
 AllNames == <<"a", "b", "c", "d", "e">>
 Pow2(i) == CASE i = 0 -> 1 [] i = 1 -> 2 [] i = 2 -> 4 [] i = 3 -> 8 [] i = 4 -> 16
-FromMask(m) == {AllNames[i] : i \in {j \in 1..5 : (m \div Pow2(j - 1)) % 2 = 1}}
+\* decoding table, evaluated once (constant-level definition)
+Dec == [m \in 0..31 |-> {AllNames[i] : i \in {j \in 1..5 : (m \div Pow2(j - 1)) % 2 = 1}}]
+FromMask(m) == Dec[m]
 
 TraceInit == l = 1 /\ ev = Null
 TraceNext == l <= Len(Trace) /\ l' = l + 1 /\ ev' = Trace[l]
@@ -30,7 +32,7 @@ SeedIdx == 1..Len(ev.r1a)
 Res(f) == [s \in SeedIdx |-> FromMask(f[s])]
 
 \* the distinct results over all seeds, assignments and runs / of one run
-Distinct(f) == {FromMask(f[s]) : s \in SeedIdx}
+Distinct(f) == {FromMask(m) : m \in {f[s] : s \in SeedIdx}}
 AllDistinct == Distinct(ev.r1a) \cup Distinct(ev.r1b) \cup Distinct(ev.r2a) \cup Distinct(ev.r2b)
 
 (* exactly min(limit, |candidates|) of the candidates, and that number is what the call returns *)
